@@ -1,6 +1,8 @@
 """C13 - edit distance, alignments and error summaries are exact and consistent."""
 import itertools
 
+import numpy as np
+
 from vlib.core import Unit
 
 PROPERTY = "C13"
@@ -313,6 +315,47 @@ def body_summary(ctx, case):
         ctx.check(abs(agg.error_rate - want["err"] / want["ref_len"]) < 1e-12, "aggregate_error_rate", lambda: "case=%r" % (case,))
 
 
+# ---------------------------------------------------------------- corpus-sized aggregation
+def strat_corpus():
+    from hypothesis import strategies as st
+    return st.tuples(st.sampled_from(["many_short", "many_short", "many_short", "long_lines"]), st.integers(300, 900), st.integers(0, 2 ** 31 - 1))
+
+
+def body_corpus(ctx, case):
+    """error summaries of a whole test set (hundreds of lines; totals beyond 255 and, for long lines, beyond 65535) aggregated in
+    one call, in two halves and line by line: plain addition of the per-line numbers"""
+    from pero_ocr.error_summary import ErrorsSummary
+    kind, n, seed = case
+    rs = np.random.RandomState(seed)
+    pairs = []
+    if kind == "many_short":
+        for _ in range(n):
+            pairs.append(("".join(rs.choice(list("abc"), size=rs.randint(0, 7))), "".join(rs.choice(list("abc"), size=rs.randint(0, 7)))))
+        dists = [wf(list(a), list(b)) for a, b in pairs]
+    else:
+        n = 640 + n % 120
+        for _ in range(n):      # reference and hypothesis share no symbol: the distance is the longer length
+            pairs.append(("".join(rs.choice(list("abcde"), size=rs.randint(90, 111))), "".join(rs.choice(list("vwxyz"), size=rs.randint(90, 111)))))
+        dists = [max(len(a), len(b)) for a, b in pairs]
+    sums = [ctx.must("from_lists_raises", ErrorsSummary.from_lists, list(a), list(b)) for a, b in pairs]
+    desc = lambda: "kind=%s lines=%d seed=%d" % (kind, n, seed)
+    for (a, b), d, s_ in zip(pairs, dists, sums):
+        ctx.check(int(s_.nb_errors) == d, "summary_nb_errors", lambda: "ref=%r hyp=%r nb_errors=%r distance=%r; " % (a, b, s_.nb_errors, d) + desc())
+    want = dict(lines=n, ref_len=sum(len(a) for a, _ in pairs), err=sum(dists))
+    halves = ErrorsSummary.aggregate([ErrorsSummary.aggregate(sums[:n // 2]), ErrorsSummary.aggregate(sums[n // 2:])])
+    running = sums[0]
+    for s_ in sums[1:]:
+        running = ErrorsSummary.aggregate([running, s_])
+    for label, agg in (("one call", ctx.must("aggregate_raises", ErrorsSummary.aggregate, sums)), ("two halves", halves), ("line by line", running)):
+        got = dict(lines=int(agg.nb_lines_summarized), ref_len=int(agg.ref_len), err=int(agg.nb_errors))
+        ctx.check(got == want, "aggregate_not_sum", lambda: "%s: got %r want %r; " % (label, got, want) + desc())
+        sid = int(agg.nb_subs) + int(agg.nb_inss) + int(agg.nb_dels)
+        ctx.check(sid == want["err"], "summary_sid", lambda: "%s: sub+ins+del=%r errors=%r; " % (label, sid, want["err"]) + desc())
+        ctx.check(abs(agg.error_rate - want["err"] / max(1, want["ref_len"])) < 1e-9 or want["ref_len"] == 0, "aggregate_error_rate", desc)
+    ctx.event("total_errors>65535" if want["err"] > 65535 else ("total_errors>255" if want["err"] > 255 else "small_total"))
+    ctx.nontrivial(("corpus", case))
+
+
 # ---------------------------------------------------------------- enumeration
 def grid_cases(tier):
     n = 3 if tier == "quick" else 4
@@ -346,5 +389,6 @@ UNITS = [
     Unit("distance", "given", body=body_distance, strategy=strat_distance, quick=2400, thorough=60000),
     Unit("substring", "given", body=body_substring, strategy=strat_substring, quick=1600, thorough=40000),
     Unit("summary", "given", body=body_summary, strategy=strat_summary, quick=800, thorough=16000),
+    Unit("corpus", "given", body=body_corpus, strategy=strat_corpus, quick=24, thorough=300),
     Unit("grid", "enum", body=body_grid, cases=grid_cases, exhaustive=True),
 ]
